@@ -2,6 +2,7 @@ mod c01;
 mod c02;
 mod c04;
 mod c05;
+mod c08;
 mod c09;
 mod c11;
 mod c16;
@@ -58,6 +59,7 @@ fn main() {
         "C02" => c02::run(&mut rng, &mut out, &tier),
         "C04" => c04::run(&mut rng, &mut out, &tier),
         "C05" => c05::run(&mut rng, &mut out, &tier),
+        "C08" => c08::run(&mut rng, &mut out, &tier),
         "probe" => probe::run(),
         "C01" => c01::run(&mut rng, &mut out, &tier),
         _ => {
